@@ -352,6 +352,28 @@ func (c *decCtx) wellTyped(mi *msgInfo, b []byte, merge, discard bool, init *V, 
 		d = dynamicpb.NewMessage(mi.md)
 	}
 	rerr, rpan := catchUnmarshal(proto.UnmarshalOptions{Merge: merge, DiscardUnknown: discard}, b, d)
+	if c.modelOK && (init == nil || !hasF32SNaN(si, mi, init)) {
+		// the reference's own answer, for the reference-decoder model (Model/RefDecode.v)
+		flags := ""
+		if merge {
+			flags += "m"
+		}
+		if discard {
+			flags += "d"
+		}
+		if flags == "" {
+			flags = "-"
+		}
+		iv := "-"
+		if init != nil {
+			iv = init.String()
+		}
+		obs := "err"
+		if rerr == nil && rpan == nil {
+			obs = "ok " + si.normV(mi, si.fromPR(mi, d)).String()
+		}
+		o.kase("REFDEC", []string{si.id, fmt.Sprint(mi.idx), flags, hx(b), iv}, obs)
+	}
 	if rerr != nil || rpan != nil {
 		o.count("welltyped_rejected_by_reference")
 		return // the mutator produced something the reference does not accept: not a well-typed stream
@@ -426,6 +448,17 @@ func (c *decCtx) malformed(mi *msgInfo, b []byte, class string) {
 	}
 	runtime.ReadMemStats(&ms1)
 	allocSink = q
+	if c.modelOK && class != "deep" {
+		// the reference's verdict on the same bytes, for the reference-decoder model (parser strictness:
+		// overflowing varints, field numbers, group ends, UTF-8, lengths)
+		d := dynamicpb.NewMessage(mi.md)
+		rerr, rpan := catchUnmarshal(proto.UnmarshalOptions{}, b, d)
+		obs := "err"
+		if rerr == nil && rpan == nil {
+			obs = "ok " + si.normV(mi, si.fromPR(mi, d)).String()
+		}
+		o.kase("REFDEC", []string{si.id, fmt.Sprint(mi.idx), "-", hx(b), "-"}, obs)
+	}
 	alloc := ms1.TotalAlloc - ms0.TotalAlloc
 	o.count("malformed_" + class + "_" + strings.Fields(res)[0])
 	k := len(b)
